@@ -177,12 +177,13 @@ void one_case(Ctx &c) {
         else if (beh == 5) respond = false;
         else if (beh >= 6) {
           conforming = false; malformed_cnt++;
-          uint32_t how = c.t.below(6);
+          uint32_t how = c.t.below(c.param == 2 ? 8 : 6);   // (mode nmt-change-while-waiting has two more kinds; the first mode keeps the alphabet its witnesses were recorded with)
           if (how == 0) rsp.d[0] ^= 0x10;                                    // wrong toggle
           else if (how == 1) { rsp.d[1] ^= 1; }                              // wrong multiplexer / data byte
           else if (how == 2) { rsp.d[0] = up ? 0x41 : 0x60; for (int i = 4; i < 8; i++) rsp.d[i] = 0xFF; }   // oversized announcement / repeated initiate
           else if (how == 3) { rsp.d[0] = up ? 0x00 : 0x20; }                // never-ending segments without last flag
           else if (how == 4) { rsp.d[0] = (uint8_t)(c.t.byte() | 0x80); if (rsp.d[0] == 0x80) { rsp.d[1] = (uint8_t)idx; rsp.d[2] = (uint8_t)(idx >> 8); rsp.d[3] = sub; } }   // wrong command class
+          else if (how >= 6) { static const uint8_t EC[6] = {0x42, 0x43, 0x47, 0x4B, 0x4F, 0x46}; rsp.d[0] = EC[c.t.below(6)]; rsp.d[1] = (uint8_t)idx; rsp.d[2] = (uint8_t)(idx >> 8); rsp.d[3] = sub; for (int i = 4; i < 8; i++) rsp.d[i] = (uint8_t)(0xA1 + i); }   // an expedited upload answer for the right object that announces another number of bytes than the buffer holds, or none at all (e = 1, s = 0)
           else for (int i = 0; i < 8; i++) rsp.d[i] = c.t.byte();
         }
       }
